@@ -16,6 +16,9 @@
 //!          branch), refused blocks dropped with their child batch, rebuild (clear + re-apply of a
 //!          window); after every switch the lists are compared with the path search over the
 //!          current path (`#ORACLE-FAIL C13` on deviation).
+//!   corrupt  records written / deleted behind the index's back (dangling pointers, wrong variants,
+//!          wrong list record), then single peek / push / pop / pop_back: the error branches of
+//!          linked_list.rs against the model (the list specification does not apply there)
 //!   chain  the real `Chain`: fork trees of real blocks with real NRD kernels delivered to a subject
 //!          chain (reorganisations, refused blocks, restart = rebuild); after every delivery the
 //!          index is read from the chain's store and compared.
@@ -112,7 +115,7 @@ fn walk(batch: &Batch<'_>, c: Commitment) -> Vec<(u64, u64)> {
 		Ok(Some(ListWrapper::Single { pos })) => v.push((pos.pos, pos.height)),
 		Ok(Some(ListWrapper::Multi { head, .. })) => {
 			let mut cur = head;
-			for _ in 0..10_000 {
+			for _ in 0..1000 {
 				match index.get_entry(batch, c, cur) {
 					Ok(Some(ListEntry::Head { pos, next })) | Ok(Some(ListEntry::Middle { pos, next, .. })) => {
 						v.push((pos.pos, pos.height));
@@ -139,7 +142,7 @@ fn walk_back(batch: &Batch<'_>, c: Commitment) -> Vec<(u64, u64)> {
 		Ok(Some(ListWrapper::Single { pos })) => v.push((pos.pos, pos.height)),
 		Ok(Some(ListWrapper::Multi { tail, .. })) => {
 			let mut cur = tail;
-			for _ in 0..10_000 {
+			for _ in 0..1000 {
 				match index.get_entry(batch, c, cur) {
 					Ok(Some(ListEntry::Tail { pos, prev })) | Ok(Some(ListEntry::Middle { pos, prev, .. })) => {
 						v.push((pos.pos, pos.height));
@@ -302,6 +305,11 @@ impl Cx {
 			_ => "len6+",
 		};
 		self.stat(&format!("obs:{}", k));
+	}
+	fn observe_raw_only(&mut self, batch: &Batch<'_>) {
+		let (s, _) = raw(batch, &self.commits);
+		self.line("nrd raw", &s);
+		self.stat("raw:dumps");
 	}
 	fn observe_raw(&mut self, batch: &Batch<'_>) {
 		let (s, n_entries) = raw(batch, &self.commits);
@@ -638,6 +646,7 @@ fn mode_ops(work: &str, seed: u64, thorough: bool) {
 		drop(store);
 		let _ = std::fs::remove_dir_all(&dir);
 	}
+	let _ = std::fs::remove_dir_all(&root);
 	finish(cx, "ops", n_cases);
 }
 
@@ -985,6 +994,7 @@ fn mode_forks(work: &str, seed: u64, thorough: bool) {
 		drop(store);
 		let _ = std::fs::remove_dir_all(&dir);
 	}
+	let _ = std::fs::remove_dir_all(&root);
 	finish(cx, "forks", n_cases);
 }
 
@@ -1254,11 +1264,20 @@ fn mode_chain(work: &str, seed: u64, thorough: bool) {
 					Ok(()) => {
 						cx.history.push("reopen".to_string());
 						cx.op("nrd begin", "ok");
-						cx.op("nrd clear", "ok");
+						// verify_kernel_pos_index from the cutoff header (height 0: the window of two
+						// weeks covers the whole test chain) over the kernel MMR, with its header walk
+						let mut hdrs = vec![];
+						let mut kers = vec![];
 						for bi in chain_path(&run.kit, run.delivered_tip) {
+							let hd = &run.kit.blks[bi].block.header;
+							hdrs.push(format!("{}:{}", hd.height, hd.kernel_mmr_size));
 							let a = chain_blk_args(&run.kit, &mut cx, bi);
-							cx.op(&format!("nrd block-apply {}", a), "ok");
+							let inner = a.split('[').nth(1).unwrap().trim_end_matches(']').to_string();
+							if !inner.is_empty() {
+								kers.push(inner);
+							}
 						}
+						cx.op(&format!("nrd rebuild-walk [{}] [{}]", hdrs.join(","), kers.join(",")), "ok");
 						cx.op("nrd commit", "ok");
 						cx.stat("chain:restart-rebuild");
 						chain_observe(&mut cx, &run.subj, &run.nrd_toks);
@@ -1310,6 +1329,157 @@ fn mode_chain(work: &str, seed: u64, thorough: bool) {
 	finish(cx, "chain", n_cases);
 }
 
+
+// ---------------------------------------------------------------------------------------------
+// mode corrupt: records written / deleted behind the index's back, then single-step operations
+// (the error branches of linked_list.rs: "expected head to be head variant", "next missing", ...)
+
+fn entry_key(c: Commitment, pos: u64) -> Vec<u8> {
+	let mut k = c.as_ref().to_vec();
+	k.extend_from_slice(&pos.to_be_bytes());
+	k
+}
+
+fn mode_corrupt(work: &str, seed: u64, thorough: bool) {
+	let mut cx = Cx::new(seed ^ 0xbad5);
+	let n_cases = if thorough { 2500 } else { 600 };
+	let root = format!("{}/nrd-corrupt", work);
+	let _ = std::fs::remove_dir_all(&root);
+	let index = cstore::nrd_recent_kernel_index();
+	let dir = format!("{}/store", root);
+	let store = ChainStore::new(&dir, None).expect("ChainStore::new");
+	for case in 0..n_cases {
+		// one store for all cases: every case works in a batch that is dropped
+		cx.new_case(2, (case % 251) as u8);
+		let mut batch = store.batch().expect("batch");
+		cx.op("nrd begin", "ok");
+		// a valid starting state
+		let mut pos = 1 + cx.rng.below(4);
+		let n0 = cx.rng.below(5);
+		let n1 = cx.rng.below(3);
+		let mut lists: Vec<Vec<u64>> = vec![vec![], vec![]];
+		for (ei, n) in [(0usize, n0), (1usize, n1)] {
+			for _ in 0..n {
+				let t = format!("e{}", ei);
+				let c = cx.commit_of(&t);
+				let res = unit(index.push_pos(&mut batch, c, CommitPos { pos, height: pos / 3 }));
+				cx.op(&format!("nrd push {} {} {}", t, pos, pos / 3), &res);
+				lists[ei].insert(0, pos);
+				pos += 1 + cx.rng.below(3);
+			}
+		}
+		cx.observe_raw_only(&batch);
+		// 1-3 corruptions
+		let n_corr = 1 + cx.rng.below(3);
+		for _ in 0..n_corr {
+			let ei = cx.rng.below(2) as usize;
+			let t = format!("e{}", ei);
+			let c = cx.commit_of(&t);
+			let l = lists[ei].clone();
+			let some_pos = |rng: &mut Rng| -> u64 {
+				if !l.is_empty() && rng.chance(3, 4) {
+					l[rng.below(l.len() as u64) as usize]
+				} else {
+					rng.below(pos + 3)
+				}
+			};
+			match cx.rng.below(6) {
+				0 => {
+					// delete an entry record (dangling pointer)
+					let p = some_pos(&mut cx.rng);
+					let _ = batch.db.delete(Some(cstore::NRD_KERNEL_ENTRY_PREFIX), &entry_key(c, p));
+					cx.op(&format!("nrd raw-del-entry {} {}", t, p), "ok");
+					cx.stat("corrupt:entry-deleted");
+				}
+				1 | 2 => {
+					// overwrite / add an entry record of an arbitrary variant
+					let p = some_pos(&mut cx.rng);
+					let cp = CommitPos { pos: if cx.rng.chance(3, 4) { p } else { some_pos(&mut cx.rng) }, height: cx.rng.below(9) };
+					let a = some_pos(&mut cx.rng);
+					let b = some_pos(&mut cx.rng);
+					let (kind, en) = match cx.rng.below(3) {
+						0 => ("H", ListEntry::Head { pos: cp, next: a }),
+						1 => ("T", ListEntry::Tail { pos: cp, prev: b }),
+						_ => ("M", ListEntry::Middle { pos: cp, next: a, prev: b }),
+					};
+					batch
+						.db
+						.put_ser(Some(cstore::NRD_KERNEL_ENTRY_PREFIX), &entry_key(c, p), &en)
+						.expect("put_ser");
+					cx.op(
+						&format!("nrd raw-put-entry {} {} {} {} {} {} {}", t, p, kind, cp.pos, cp.height, a, b),
+						"ok",
+					);
+					cx.stat(&format!("corrupt:entry-written-{}", kind));
+				}
+				3 | 4 => {
+					// overwrite the list record
+					let a = some_pos(&mut cx.rng);
+					let b = some_pos(&mut cx.rng);
+					if cx.rng.chance(1, 3) {
+						let w: ListWrapper<CommitPos> = ListWrapper::Single { pos: CommitPos { pos: a, height: b } };
+						batch.db.put_ser(Some(cstore::NRD_KERNEL_LIST_PREFIX), c.as_ref(), &w).expect("put_ser");
+						cx.op(&format!("nrd raw-put-list {} S {} {}", t, a, b), "ok");
+						cx.stat("corrupt:list-written-S");
+					} else {
+						let w: ListWrapper<CommitPos> = ListWrapper::Multi { head: a, tail: b };
+						batch.db.put_ser(Some(cstore::NRD_KERNEL_LIST_PREFIX), c.as_ref(), &w).expect("put_ser");
+						cx.op(&format!("nrd raw-put-list {} M {} {}", t, a, b), "ok");
+						cx.stat("corrupt:list-written-M");
+					}
+				}
+				_ => {
+					let _ = batch.db.delete(Some(cstore::NRD_KERNEL_LIST_PREFIX), c.as_ref());
+					cx.op(&format!("nrd raw-del-list {}", t), "ok");
+					cx.stat("corrupt:list-deleted");
+				}
+			}
+		}
+		cx.observe_raw_only(&batch);
+		// single-step operations on the malformed store (no loops: `rewind` on a malformed store
+		// may not terminate in the real code)
+		let n_ops = 2 + cx.rng.below(5);
+		for _ in 0..n_ops {
+			let ei = cx.rng.below(2) as usize;
+			let t = format!("e{}", ei);
+			let c = cx.commit_of(&t);
+			let res;
+			match cx.rng.below(5) {
+				0 => {
+					res = opt_cp(index.peek_pos(&batch, c));
+					cx.line(&format!("nrd peek {}", t), &res);
+				}
+				1 | 2 => {
+					let p = if cx.rng.chance(2, 3) { pos + cx.rng.below(4) } else { cx.rng.below(pos + 2) };
+					res = unit(index.push_pos(&mut batch, c, CommitPos { pos: p, height: p / 3 }));
+					cx.op(&format!("nrd push {} {} {}", t, p, p / 3), &res);
+				}
+				3 => {
+					res = opt_cp(index.pop_pos(&mut batch, c));
+					cx.op(&format!("nrd pop {}", t), &res);
+				}
+				_ => {
+					res = opt_cp(index.pop_pos_back(&mut batch, c));
+					cx.op(&format!("nrd popback {}", t), &res);
+				}
+			}
+			let k = if res.starts_with("err:") { res[4..].to_string() } else { "no-error".to_string() };
+			cx.stat(&format!("corrupt:op-result:{}", k));
+			// walks (capped) and records
+			let l = walk(&batch, c);
+			cx.line(&format!("nrd list {}", t), &cp_list(&l));
+			let b = walk_back(&batch, c);
+			cx.line(&format!("nrd back {}", t), &cp_list(&b));
+			cx.observe_raw_only(&batch);
+		}
+		drop(batch);
+		cx.op("nrd rollback", "ok");
+	}
+	drop(store);
+	let _ = std::fs::remove_dir_all(&root);
+	finish(cx, "corrupt", n_cases);
+}
+
 fn main() {
 	quiet_panics();
 	global::set_local_chain_type(ChainTypes::AutomatedTesting);
@@ -1322,6 +1492,7 @@ fn main() {
 		"ops" => mode_ops(&work, seed, thorough),
 		"forks" => mode_forks(&work, seed, thorough),
 		"chain" => mode_chain(&work, seed, thorough),
+		"corrupt" => mode_corrupt(&work, seed, thorough),
 		m => {
 			eprintln!("unknown mode {}", m);
 			std::process::exit(2);
